@@ -299,7 +299,7 @@ fn clusters_text(lines: &[String], no_norm: bool, tokenized: bool) -> String {
     if v.is_empty() { "-".into() } else { v.join("/") }
 }
 
-const UNITS: &[&str] = &["a", "b", "Z", "1", "９", "あ", "い", "カ", "ｶ", "漢", "字", "𠮷", "。", " ", "/", "\\", "-", "ab", "e\u{301}", "🇯🇵", "\0", "ｱﾞ", "｢", "－", "～", "ａ"];
+const UNITS: &[&str] = &["a", "b", "Z", "1", "９", "あ", "い", "カ", "ｶ", "漢", "字", "𠮷", "。", " ", "/", "\\", "-", "ab", "e\u{301}", "🇯🇵", "\0", "ｱﾞ", "ｶﾞ", "ﾊﾟ", "ｳﾞ", "｢", "－", "～", "ａ"];
 /// characters the normaliser replaces by characters of the same UTF-8 length (and unaffected neighbours): a line
 /// made of these keeps its byte length under normalisation although its text changes
 const SAMELEN: &[&str] = &["｢", "｣", "－", "～", "､", "｡", "･", "\u{2015}", "\u{2500}", "\u{2013}", "あ", "漢", "カ"];
